@@ -527,6 +527,58 @@ def run_scaling(ctx):
     r.sample({'scaling_families': list(SCALING_FAMILIES), 'sizes': [n1, n2]})
 
 
+RAW_CELLS = [('shared string without a value', '<c r="B2" t="s"/>'), ('shared string with an empty value', '<c r="B2" t="s"><v></v></c>'),
+             ('number without a value', '<c r="B2" t="n"/>'), ('no type, no value', '<c r="B2"/>'), ('styled blank', '<c r="B2" s="0"/>'),
+             ('error cell', '<c r="B2" t="e"><v>#N/A</v></c>'), ('error cell whose text starts with =', '<c r="B2" t="e"><v>=A1*2</v></c>'),
+             ('boolean cell', '<c r="B2" t="b"><v>1</v></c>'), ('boolean cell without a value', '<c r="B2" t="b"/>'),
+             ('formula with a cached text', '<c r="B2" t="str"><f>A1&amp;"x"</f><v>cached</v></c>'), ('formula with a cached error', '<c r="B2" t="e"><f>1/0</f><v>#DIV/0!</v></c>'),
+             ('rich text', '<c r="B2" t="inlineStr"><is><r><t>ri</t></r><r><rPr><b/></rPr><t>ch</t></r></is></c>'), ('empty inline string', '<c r="B2" t="inlineStr"><is><t></t></is></c>'),
+             ('inline string without text', '<c r="B2" t="inlineStr"><is/></c>'), ('ISO date cell', '<c r="B2" t="d"><v>2024-01-31T00:00:00</v></c>'),
+             ('number written with an exponent', '<c r="B2"><v>1.5E+3</v></c>'), ('formula without a cached value', '<c r="B2"><f>A1+1</f></c>'),
+             ('text with leading blanks preserved', '<c r="B2" t="inlineStr"><is><t xml:space="preserve">  padded  </t></is></c>')]
+
+
+def run_rawxml(ctx):
+    """cells as OTHER writers store them (the sheet XML of a workbook written by openpyxl is patched): whatever openpyxl's reader hands over
+    for them, translation ends with a class that loads - every ordinary cell of it evaluable - or with an exception of the library"""
+    r = ctx.r
+    for what, raw in RAW_CELLS:
+        cells = {'A1': 5, 'A2': 'txt', 'B1': 2.5, 'B2': 'PLACEHOLDER', 'C2': '=A1+1', 'C3': '=B2', 'C4': '=IFERROR(B2&"|",0)', 'D1': True}
+        spec = wbspec.spec(wbspec.sheet('S', cells), wbspec.sheet('T', {'A1': '=S!B2'}))
+        path = wbspec.write(spec, os.path.join(ctx.workdir, 'raw_%s.xlsx' % re.sub(r'\W+', '_', what)))
+        if not wbspec.replace_cell_xml(path, 1, 'B2', raw):
+            r.count('raw_cell_not_planted')
+            continue
+        try:
+            openpyxl.load_workbook(path, read_only=True).close()
+        except Exception:
+            r.count('raw_cell_unreadable_for_openpyxl')       # not a readable workbook: outside the property
+            continue
+        r.count('raw_cell_books')
+        t = pipeline.translate(path)
+        r.ev()
+        r.nt(('rawxml', what))
+        case = {'text': raw, 'how': 'raw-cell:' + what}
+        if not t.ok:
+            if t.kind != pipeline.LIB_EXC:
+                report(r, ID, None, case, t.brief(), 'a class or an exception of the library', monitor='translate-foreign-exception')
+            continue
+        ld = pipeline.load_text(t.value)
+        if not ld.ok:
+            report(r, ID, None, case, ld.brief(), 'the returned text compiles and loads', monitor='load')
+            continue
+        for a, want in (('A1', 5), ('A2', 'txt'), ('B1', 2.5), ('C2', 6), ('D1', True)):
+            o = pipeline.query(ld.value, 0, *wbspec.rc(a))
+            r.ev()
+            if not (o.ok and type(o.value) is type(want) and o.value == want):
+                report(r, ID, None, dict(case, cell=a), o.brief(), want, monitor='member-evaluable')
+        o = pipeline.query(ld.value, 0, 2, 2)
+        r.ev()
+        if not o.ok and o.kind != pipeline.LIB_EXC and o.exc_name in ('NameError', 'SyntaxError', 'AttributeError'):
+            report(r, ID, None, dict(case, cell='B2'), o.brief(), 'an evaluable member for the cell', monitor='member-evaluable')
+    r.sample({'raw_cells': [w for w, _ in RAW_CELLS]})
+
+
 def plan(tier, seed):
     q = tier == 'quick'
     sh = [{'kind': 'degenerate'}] + [{'kind': 'nest', 'max': 24 if q else 64, 'part': p, 'parts': 8} for p in range(8)]
@@ -542,6 +594,7 @@ def plan(tier, seed):
     # ... and in an interpreter that writes bytecode files, as most programs do (the harness itself runs with PYTHONDONTWRITEBYTECODE)
     sh.append({'kind': 'whole', 'n': 4 if q else 40, 'k': 200, '_env': {'VERIF_WRITE_BYTECODE': '1'}})
     sh.append({'kind': 'scaling'})
+    sh.append({'kind': 'rawxml'})
     for k in range(2 if q else 4):
         sh.append({'kind': 'whole', 'n': 6 if q else 60, 'k': 100 + k, 'ascii_locale': True,
                    '_env': {'LC_ALL': 'C', 'LANG': 'C', 'PYTHONUTF8': '0', 'PYTHONCOERCECLOCALE': '0'}})
@@ -624,6 +677,8 @@ def run_shard(shard, ctx):
             r.sample({'soups': [t for t, h in items if h == 'soup'][:8], 'splices': [t for t, h in items if h == 'splice'][:5]})
     elif k == 'scaling':
         run_scaling(ctx)
+    elif k == 'rawxml':
+        run_rawxml(ctx)
     elif k == 'whole':
         rewrite_same_second(ctx)
         for i in range(shard['n']):
